@@ -43,7 +43,7 @@ def newInst (e : TEnv) (backend : String) (depth : Nat) : Option Inst :=
   if e.spec then some (.ideal (Ideal.new depth) backend)
   else if backend == "full" then some (.full (Full.new e.H 0 depth))
   else if backend == "opt" then some (.opt (Optimal.new e.H 0 depth))
-  else if backend == "pm" then
+  else if backend == "pm" || backend == "pmdisk" then
     let (t, _) := Pm.new (D := KvMap) e.H 0 depth { kv := {} }
     some (.pm t)
   else none
@@ -133,7 +133,9 @@ def stepInst (e : TEnv) (inst : Inst) (w : List String) : Inst × String :=
     | some s, some vs, some rm => let (t', r) := updPm (Pm.overrideRange NodeMap H 0 s vs rm t); (.pm t', r)
     | _, _, _ => (inst, "bad-op")
   | .ideal t b, ["batch", s, vs, rm] => match parseHexNat s, parseList vs, parseList rm with
-    | some s, some vs, some rm => let (t', r) := upd t (Ideal.batch 0 t s vs rm); (.ideal t' b, r)
+    -- a batch that only names never-written positions changes nothing; its result code is backend-specific
+    | some s, some vs, some rm => let (t', r) := upd t (Ideal.batch 0 t s vs rm)
+      (.ideal t' b, if vs.isEmpty ∧ ¬ rm.isEmpty ∧ rm.all (fun i => i ≥ t.next ∧ i < t.cap) then "n/a" else r)
     | _, _, _ => (inst, "bad-op")
   -- ---------------------------------------------------------------- observers
   | .full t, ["root"] => (inst, fr t.root)
@@ -228,5 +230,37 @@ def stepInst (e : TEnv) (inst : Inst) (w : List String) : Inst × String :=
     (inst, s!"root={fr root'} next={next} empty={showList (empt.map toString)} nodes=" ++
       showList (lv.map (fun l => showList (l.map fr))))
   | _, _ => (inst, "bad-op")
+
+/-- an instance plus the metadata slot of the in-memory backends / of the specification -/
+structure TInst where
+  inst : Inst
+  md : List UInt8 := []
+
+/-- ops that only the persistent backend distinguishes: close, reopen, metadata, failure injection -/
+def stepT (e : TEnv) (ti : TInst) (w : List String) : TInst × String :=
+  match ti.inst, w with
+  | .pm t, ["close"] => let r := Pm.flush t; ({ ti with inst := .pm r.1 }, res r.2)
+  | .ideal _ _, ["close"] => (ti, "ok")
+  | .pm t, ["reopen", d] => match d.toNat? with
+    | some d => ({ ti with inst := .pm (Pm.load e.H 0 d { kv := t.db.kv }) }, "ok")
+    | none => (ti, "bad-op")
+  | .ideal _ _, ["reopen", _] => (ti, "ok")      -- reopening changes nothing observable
+  | .pm t, ["meta", "set", b] => match parseHexBytes b with
+    | some b => let r := Pm.setMetadata b t; ({ ti with inst := .pm r.1 }, res r.2)
+    | none => (ti, "bad-op")
+  | _, ["meta", "set", b] => match parseHexBytes b with
+    | some b => ({ ti with md := b }, "ok")
+    | none => (ti, "bad-op")
+  | .pm t, ["meta", "get"] => (ti, showBytes (Pm.getMetadata t))
+  | _, ["meta", "get"] => (ti, showBytes ti.md)
+  | .pm t, ["arm", k] => match k.toInt? with
+    | some k => ({ ti with inst := .pm { t with db := { t.db with calls := 0, failAt := if k ≥ 0 then some k.toNat else none } } }, "ok")
+    | none => (ti, "bad-op")
+  | _, ["arm", _] => (ti, "ok")
+  | .pm t, ["fired"] =>
+    let f := match t.db.failAt with | some k => decide (t.db.calls > k) | none => false
+    ({ ti with inst := .pm { t with db := { t.db with failAt := none } } }, toString f)
+  | _, ["fired"] => (ti, "n/a")
+  | _, _ => let (i, r) := stepInst e ti.inst w; ({ ti with inst := i }, r)
 
 end Zk.TreeDriver
